@@ -61,6 +61,41 @@ def nested_job(spec, size):
                exact_floats=spec.exact_floats, timeout_s=spec.timeout_s)
 
 
+def continuity_displaced(nref, moved):
+    """continuity of a concrete reference pulse (beats 1 s apart: the metrical variations and all interval ratios are then linear)
+    against the same pulse with the beats at positions `moved` displaced by arbitrary amounts (order kept):
+    CMLc <= CMLt, AMLc <= AMLt, CMLc <= AMLc, CMLt <= AMLt"""
+    import mir_eval.beat as BEAT
+
+    def build(ctx):
+        est = []
+        for i in range(nref):
+            if i in moved:
+                d = ctx.real('d%d' % i)
+                ctx.assume(d > -1)
+                ctx.assume(d < 1)
+                est.append(i + d)
+            else:
+                est.append(float(i))
+        for a, b in zip(est, est[1:]):
+            ctx.assume(S._b_cmp('lt')(a, b))
+        ctx.assume(S._b_cmp('ge')(est[0], 0))
+        return dict(est=S.array(est))
+
+    def body(A, inp):
+        ref = np.arange(nref, dtype=float)
+        if A.sym:
+            ref = S._wrap(ref)
+        r = BEAT.continuity(ref, inp['est'])
+        names = ('CMLc', 'CMLt', 'AMLc', 'AMLt')
+        for nm, v in zip(names, r):
+            A.observe(nm, v)
+        for i, j in ((0, 1), (2, 3), (0, 2), (1, 3)):
+            A.require(A.le(r[i], r[j]), 'beat.continuity[displaced pulse]:%s<=%s' % (names[i], names[j]))
+    return Job('C07', 'beat.continuity[%d-beat pulse, beats %s displaced,nested]' % (nref, ','.join(map(str, moved))), build, body,
+               funcs=['beat.continuity', 'beat._get_reference_beat_variations'], bounds=dict(ref=nref, displaced=list(moved)), timeout_s=1500)
+
+
 def transcription_nested(size, strict):
     n, m = size
 
@@ -221,4 +256,10 @@ def jobs(tier):
     js.append(transcription_nested((1, 2), True))
     for size in ([(1, 1)] if q else [(1, 1), (1, 2), (2, 1)]):
         js.append(transcription_strict_fine(size))
+    import itertools
+    for moved in itertools.combinations(range(5), 2):
+        js.append(continuity_displaced(5, moved))
+    if not q:
+        for moved in [(0, 2, 4), (1, 2, 3), (1, 3, 5), (0, 3, 5)]:
+            js.append(continuity_displaced(6, moved))
     return js
